@@ -5,7 +5,7 @@ import ast
 
 import z3
 
-from .engine import BoundMethod, ClassVal, Closure, SDict
+from .engine import BoundMethod, ClassVal, Closure, PairList, SDict
 from .source import ClassDef, Extern, FuncDef, ModuleRef
 from .state import PathEnd, RaiseEx
 from .types import (
@@ -149,13 +149,15 @@ class ExprMixin:
                 raise Unsupported("dict ** of symbolic map")
             kv = self.eval(k)
             if isinstance(kv, SV):
-                # symbolic key: build a map
-                vv = self.eval(v)
-                vv = vv if isinstance(vv, SV) else lift(vv)
+                # symbolic key(s): a fixed-length association list
                 if d.items:
                     raise Unsupported("dict literal mixing constant and symbolic keys")
-                m = TMap(kv.ty, vv.ty).empty()
-                return self.map_store(m, kv, vv)
+                pairs = [(kv, self.eval(v))]
+                for k2, v2 in list(zip(e.keys, e.values))[1:]:
+                    pairs.append((self.eval(k2), self.eval(v2)))
+                if len(pairs) > 1:
+                    raise Unsupported("dict literal with several symbolic keys")
+                return PairList(pairs)
             d.items[kv] = (z3.BoolVal(True), self.eval(v))
         return d
 
@@ -414,6 +416,16 @@ class ExprMixin:
             a = self.lift_like(a, b.ty)
         if isinstance(b, (tuple, list)) and isinstance(a, SV):
             b = self.lift_like(b, a.ty)
+        if isinstance(a, PairList) or isinstance(b, PairList):
+            if isinstance(a, SDict) and not a.items:
+                return len(b.pairs) == 0
+            if isinstance(b, SDict) and not b.items:
+                return len(a.pairs) == 0
+            if isinstance(a, PairList) and isinstance(b, PairList) and len(a.pairs) == len(b.pairs) == 1:
+                return lift(self.eq(a.pairs[0][0], b.pairs[0][0]), TBool) & lift(self.eq(a.pairs[0][1], b.pairs[0][1]), TBool)
+            if isinstance(a, PairList) and isinstance(b, PairList):
+                return len(a.pairs) == len(b.pairs) == 0
+            return False
         if isinstance(a, SDict) or isinstance(b, SDict):
             return self.sdict_eq(a, b)
         if isinstance(a, (ClassVal, Closure, FuncDef)) or isinstance(b, (ClassVal, Closure, FuncDef)):
@@ -439,6 +451,8 @@ class ExprMixin:
         raise Unsupported(f"compare tuple with {ty}")
 
     def sdict_eq(self, a, b):
+        if a is None or b is None:
+            return False
         if isinstance(a, SDict) and isinstance(b, SDict):
             acc = lift(True)
             for k in set(a.items) | set(b.items):
@@ -492,6 +506,8 @@ class ExprMixin:
             return False
         if isinstance(v, (bool, int, str, bytes, float, tuple, list)):
             return bool(v)
+        if isinstance(v, PairList):
+            return len(v.pairs) > 0
         if isinstance(v, SDict):
             if not v.items:
                 return False
@@ -630,24 +646,40 @@ class ExprMixin:
                 for x in it:
                     self.assign(g.target, x)
                     ok = True
+                    cond = None
+                    npc = len(self.st.pc)
                     for c in g.ifs:
                         t = self.truth(self.eval(c))
-                        if not (t if isinstance(t, bool) else self.branch(t)):
+                        if isinstance(t, bool):
+                            if not t:
+                                ok = False
+                                break
+                            continue
+                        if kind == "dict":
+                            # conditional entry of a constant-key dict: no fork, the condition becomes its presence
+                            cond = t.t if cond is None else z3.And(cond, t.t)
+                            self.st.pc.append(t.t)
+                            continue
+                        if not self.branch(t):
                             ok = False
                             break
-                    if ok:
-                        if kind == "dict":
-                            out.append((self.eval(e.key), self.eval(e.value)))
-                        else:
-                            out.append(self.eval(e.elt))
+                    try:
+                        if ok:
+                            if kind == "dict":
+                                out.append((self.eval(e.key), self.eval(e.value), cond))
+                            else:
+                                out.append(self.eval(e.elt))
+                    finally:
+                        if cond is not None:
+                            del self.st.pc[npc:]
             finally:
                 self.frames.pop()
             if kind == "dict":
                 d = SDict()
-                for k, v in out:
+                for k, v, cond in out:
                     if isinstance(k, SV):
                         raise Unsupported("dict comprehension with symbolic keys over a concrete iterable")
-                    d.items[k] = (z3.BoolVal(True), v)
+                    d.items[k] = (z3.BoolVal(True) if cond is None else cond, v)
                 return d
             if kind == "set":
                 if not out:
